@@ -39,6 +39,10 @@ def seq_families(tier):
                                        maxReact=2), None)
     F["concat2_r2"] = (scen.with_bounds(scen.nary("concat", 2), "concat", maxData=1, maxTop=2, maxPull=1, allowFail=False,
                                         maxReact=2), None)
+    # two Pulls, so that a Pull can be nested inside the broadcast of another one
+    for kind in ("merge", "combine"):
+        F[kind + "2_p2"] = (scen.with_bounds(scen.nary(kind, 2), kind, maxData=1, maxTop=2, maxPull=2, allowFail=False,
+                                             burst=False), None)
     nre = dict(maxData=2, maxTop=2, maxPull=0, allowFail=False, reentrant=True)
     for kind in ("merge", "concat", "combine"):
         F[kind + "2_re"] = (scen.with_bounds(scen.nary(kind, 2, mode="push"), kind, **nre), None)
@@ -239,6 +243,9 @@ def plan(prop, tier):
             fams.append(("share3_cross", scen.with_bounds(scen.share_g("push"), "share", sinks=["probe", "probe", "probe"],
                                                          maxData=2, maxTop=4, maxPull=0, allowFail=False, burst=False,
                                                          cross=True), None))
+            fams.append(("share3_cross_r2", scen.with_bounds(scen.share_g("push"), "share", sinks=["probe", "probe", "probe"],
+                                                            maxData=2, maxTop=4 if q else 5, maxPull=0, allowFail=False,
+                                                            burst=False, cross=True, maxReact=2), None))
             fams.append(("share3_push", scen.with_bounds(scen.share_g("push"), "share",
                                                         sinks=["probe", "probe", "probe"], maxData=1,
                                                         maxTop=4 if q else 5, maxPull=0, allowFail=False), None))
